@@ -3,7 +3,8 @@ import PPLV.PolyOps.ProofsDims8
 /-!
 # C02 stage 2 — `map_space_dimensions`, general case: the rebuilt generator system
 
-`genRowMap`: renamed coefficients, origin lines and rays dropped, rows (strongly) normalised;
+`genRowMap`: renamed coefficients, origin lines and rays dropped, rows (strongly) normalised, the
+epsilon coefficient of a point rebuilt as its divisor;
 `addCorrespondingClosurePoints` (NNC): the closure point of a point that is present adds nothing.
 -/
 namespace PPLV.PolyOps
@@ -12,8 +13,17 @@ open PPLV.Lin
 set_option linter.unusedSimpArgs false
 set_option linter.unusedVariables false
 
+/-- what `genRowMap` does to a point or closure point: `point(expr, d)` / `closure_point(expr, d)`
+    build a normalised generator without epsilon column; inserted into the system, a point gets
+    `epsilon := divisor` -/
+def normP (r : Row) : Row :=
+  if r.eps > 0 then
+    { ({ r with eps := 0 } : Row).normalize with eps := (({ r with eps := 0 } : Row).normalize).b }
+  else ({ r with eps := 0 } : Row).normalize
+
 /-- the normalisation `genRowMap` applies to a kept row -/
-def normG (r : Row) : Row := if (r.b == 0 && r.eq) = true then r.strongNormalize else r.normalize
+def normG (r : Row) : Row :=
+  if (r.b == 0) = true then (if r.eq = true then r.strongNormalize else r.normalize) else normP r
 
 theorem filterMap_genRowMap (f : List (Option Nat)) (N : Nat) (rows : List Row) :
     rows.filterMap (genRowMap f N) =
@@ -22,23 +32,76 @@ theorem filterMap_genRowMap (f : List (Option Nat)) (N : Nat) (rows : List Row) 
   | nil => rfl
   | cons r rs ih =>
     rw [List.filterMap_cons, List.map_cons, List.filter_cons, ih]
-    unfold genRowMap normG Row.mapC
+    unfold genRowMap normG normP Row.mapC
     simp only
     by_cases hb : r.b = 0 <;> cases hz : (mapCoords f N r.cf).all (· == 0) <;> cases he : r.eq <;>
       simp [hb, hz, he]
+
+theorem eps_zero_eq (r : Row) (h : r.eps = 0) : ({ r with eps := 0 } : Row) = r := by
+  cases r; simp only at h; subst h; rfl
+
+/-- points and closure points: the kind, the coordinates over the divisor are kept -/
+theorem normP_facts (nnc : Bool) (n : Nat) (r : Row) (h : r.genWF nnc n) (hb : r.b ≠ 0) :
+    (normP r).genWF nnc n ∧ ((normP r).isPoint nnc ↔ r.isPoint nnc) ∧
+      ∀ c : Con, rowAdmits c ((normP r).toGen nnc) ↔ rowAdmits c (r.toGen nnc) := by
+  obtain ⟨h1, h2, h3, h4, h5, h6⟩ := h
+  have hbpos : 0 < r.b := lt_of_le_of_ne h2 (Ne.symm hb)
+  have heq : r.eq = false := by
+    cases hq : r.eq
+    · rfl
+    · exact absurd (h4 hq) hb
+  by_cases he : r.eps > 0
+  · -- a point of an NNC system; the row without epsilon is read in the closed topology
+    have hn : nnc = true := by
+      cases hnn : nnc
+      · have := h6 hnn; omega
+      · rfl
+    have hwf1 : ({ r with eps := 0 } : Row).genWF false n :=
+      ⟨h1, h2, le_refl _, h4, fun _ => rfl, fun _ => rfl⟩
+    have h0wf := (normalize_genWF false n _ hwf1).1
+    have h0pt : (({ r with eps := 0 } : Row).normalize).isPoint false :=
+      (normalize_isPoint_iff false _).mpr ⟨heq, hbpos, fun hh => by cases hh⟩
+    have hadm0 := normalize_admits false n _ hwf1
+    rw [toGen_pt false ({ r with eps := 0 } : Row) heq hb (by simp)] at hadm0
+    unfold normP
+    rw [if_pos he]
+    generalize ({ r with eps := 0 } : Row).normalize = r0 at h0wf h0pt hadm0 ⊢
+    obtain ⟨g1, g2, g3, g4, g5, g6⟩ := h0wf
+    obtain ⟨p1, p2, _⟩ := h0pt
+    rw [toGen_pt false r0 p1 (ne_of_gt p2) (by simp)] at hadm0
+    refine ⟨⟨g1, g2, g2, g4, fun hh => absurd hh (ne_of_gt p2), fun hh => by rw [hn] at hh; cases hh⟩,
+      ?_, fun c => ?_⟩
+    · exact ⟨fun _ => ⟨heq, hbpos, fun _ => he⟩, fun _ => ⟨p1, p2, fun _ => p2⟩⟩
+    · have hg : Row.toGen nnc ({ r0 with eps := r0.b } : Row) = ⟨.point, r0.cf, r0.b⟩ :=
+        toGen_pt nnc ({ r0 with eps := r0.b } : Row) p1 (ne_of_gt p2) (by
+          intro hh
+          have h0 : r0.b = 0 := hh.2
+          omega)
+      rw [toGen_pt nnc r heq hb (by intro hh; omega)]
+      exact hg ▸ hadm0 c
+  · have he0 : r.eps = 0 := by omega
+    have hr' : normP r = ({ r with eps := 0 } : Row).normalize := by
+      unfold normP; rw [if_neg he]
+    rw [hr', eps_zero_eq r he0]
+    have hwf : r.genWF nnc n := ⟨h1, h2, h3, h4, h5, h6⟩
+    exact ⟨(normalize_genWF nnc n r hwf).1, normalize_isPoint_iff nnc r,
+      fun c => normalize_admits nnc n r hwf c⟩
 
 theorem normG_facts (nnc : Bool) (n : Nat) (r : Row) (h : r.genWF nnc n) :
     (normG r).genWF nnc n ∧ ((normG r).isPoint nnc ↔ r.isPoint nnc) ∧
       ∀ c : Con, rowAdmits c ((normG r).toGen nnc) ↔ rowAdmits c (r.toGen nnc) := by
   unfold normG
   split
-  · refine ⟨(kit_strongNormalizeWF nnc n r h).1, ?_, fun c => ?_⟩
-    · unfold Row.strongNormalize
-      rw [signNormalize_isPoint_iff, normalize_isPoint_iff]
-    · unfold Row.strongNormalize
-      rw [signNormalize_admits, normalize_admits nnc n r h c]
-  · exact ⟨(kit_strongNormalizeWF nnc n r h).2.1, normalize_isPoint_iff nnc r,
-      fun c => normalize_admits nnc n r h c⟩
+  · split
+    · refine ⟨(kit_strongNormalizeWF nnc n r h).1, ?_, fun c => ?_⟩
+      · unfold Row.strongNormalize
+        rw [signNormalize_isPoint_iff, normalize_isPoint_iff]
+      · unfold Row.strongNormalize
+        rw [signNormalize_admits, normalize_admits nnc n r h c]
+    · exact ⟨(kit_strongNormalizeWF nnc n r h).2.1, normalize_isPoint_iff nnc r,
+        fun c => normalize_admits nnc n r h c⟩
+  · rename_i hb
+    exact normP_facts nnc n r h (by simpa using hb)
 
 theorem genSem_normG (nnc : Bool) (n : Nat) (rows : List Row) (hwf : ∀ r ∈ rows, r.genWF nnc n) :
     genSem nnc n (rows.map normG) = genSem nnc n rows :=
